@@ -1,4 +1,5 @@
 import CbiVerif.Lemmas.EvalMain
+import CbiVerif.Lemmas.LexSource
 /-!
 # C02 — `#if` expressions are evaluated with C integer-constant-expression semantics
 
@@ -162,6 +163,31 @@ theorem main_refuted : ¬ main := by
   rw [h2] at this
   exact absurd this (by decide)
 
+/-! ## 6b. from the text to the tokens: the lexer
+
+The theorems above speak about token lists.  The two below tie the *text* of an expression to its tokens
+for the lexer model the driver executes (`PP.tokenize`, whose operator / punctuator / exponent lists are
+the ones regenerated from `Lexer` in the code on every run). -/
+
+/-- Every spelling in the regenerated `Lexer.operator` list is read back as that operator (and the two
+    parentheses as punctuators): no earlier entry of the list shadows a longer one ("longest match
+    first").  Reordering the list in the code (say `<` before `<<`) breaks this `decide`. -/
+theorem lexer_tables_longest_match :
+    (Gen.lexOperators.all fun o => LexRT.lexOK ⟨.op, o, false, true⟩) = true ∧
+    LexRT.lexOK lpTok = true ∧ LexRT.lexOK rpTok = true := by decide
+
+/-- For every parse tree whose leaves are single lexer tokens (`lexable`: valid integer constants of any
+    base / suffix, plain or one-character-escape character constants, identifiers of letters, digits and
+    `_`), of any size and nesting, the lexer turns the text of the tree — its source tokens separated by
+    blanks — into exactly those tokens (kinds and texts), in order, nothing dropped, split or merged. -/
+theorem lexer_reads_source (a : CExpr.Ast) (h : LexSource.lexable a = true) :
+    tokenize (LexRT.text (renderSrc a)) = (renderSrc a).map LexRT.norm :=
+  LexRT.tokenize_text _ (LexSource.renderSrc_ok a h)
+
+/-- token-list form: any list of tokens of the accepted classes -/
+theorem lexer_roundtrip (ts : List Tok) (h : ∀ t ∈ ts, LexRT.lexOK t = true) :
+    tokenize (LexRT.text ts) = ts.map LexRT.norm := LexRT.tokenize_text ts h
+
 /-! ## 7. non-vacuity -/
 
 def dec (n : Nat) : Lit := ⟨.dec, false, (Nat.toDigits 10 n).map fun c => ⟨Fin.ofNat 16 (c.toNat - 48), false⟩, noSuffix⟩
@@ -183,6 +209,16 @@ example : sample.grammatical = true ∧ sample.constsOK = true ∧ usesEscapedCh
 /-- (2u > -1 is false in C: -1 converts to UINTMAX_MAX; the evaluator agrees) -/
 example : cbiEval (render envNone sample) = .ok false := by decide
 example : (render envNone sample).length = 20 := by decide
+
+/-- the hypotheses of `lexer_reads_source` hold for `sample`; its text and what the lexer makes of it -/
+example : LexSource.lexable sample = true ∧
+    LexRT.text (renderSrc sample) = " - 7 / 2 == - 3 && ( 1 ? 2u : 0 ) > - 1 || defined ( X ) " ∧
+    (tokenize (LexRT.text (renderSrc sample))).map (·.text) =
+      ["-", "7", "/", "2", "==", "-", "3", "&&", "(", "1", "?", "2u", ":", "0", ")", ">", "-", "1", "||", "defined", "(", "X", ")"] := by decide
+/-- operators that are prefixes of one another are kept apart: `a <<= b` is not in the class (`<<=` is no
+    `#if` operator) but `a << b <= c >> d >= e` reads back token by token -/
+example : tokenize " 1 << 2 <= 3 >> 4 >= 5 " = [numTok "1", opTok "<<", numTok "2", opTok "<=", numTok "3", opTok ">>", numTok "4",
+    opTok ">=", numTok "5"].map LexRT.norm := by decide
 
 /-- `0 && (1/0)` is well-formed C (the division is not evaluated) and must not fail: hypotheses of
     `main_partial` hold with an undefined dead operand -/
